@@ -16,12 +16,14 @@ use svh::*;
 
 #[path = "wire/common.rs"]
 mod common;
+#[path = "wire2/fmt_ndisc.rs"]
+mod fmt_ndisc;
 #[path = "wire2/fmt_ndiscopt.rs"]
 mod fmt_ndiscopt;
 
 use common::Format;
 
-const FORMATS: &[&Format] = &[&fmt_ndiscopt::FORMAT];
+const FORMATS: &[&Format] = &[&fmt_ndiscopt::FORMAT, &fmt_ndisc::FORMAT];
 
 fn format(name: &str) -> &'static Format {
     FORMATS.iter().find(|f| f.name == name).unwrap_or_else(|| panic!("unknown format {}", name))
